@@ -387,7 +387,116 @@ def exT : Str := cs!":return: the result"
 def exFooter : Str := cs!"\n\nNotes about usage.\nMore notes.\n"
 def exDoc : Str := cs!"Summary line.\n\nSecond paragraph\ncontinues here, mentions :param in passing.\n\n:param a: first\n:type a: ```int```\n\n:param b: second\n:type b: ```str```\n:return: the result\n\nNotes about usage.\nMore notes.\n"
 
-example : compactDom exHs exSs exL exT exFooter = true := by decide
-example : unlines exHs ++ (unlines exSs ++ exL ++ '\n' :: exT) ++ exFooter = exDoc := by decide
+/-- the hypotheses hold … -/
+example : compactDom exHs exSs exL exT exFooter = true := by decide +kernel
+example : unlines exHs ++ (unlines exSs ++ exL ++ '\n' :: exT) ++ exFooter = exDoc := by decide +kernel
+/-- … hence (instance of `field_compact_split`, not an evaluation) the split is at 77 = |header| and 168 = |header| + |section| -/
+example : idxPair exDoc = .ok (77, 168) := by
+  have h := field_compact_split exHs exSs exL exT exFooter (by decide +kernel)
+  have e : unlines exHs ++ (unlines exSs ++ exL ++ '\n' :: exT) ++ exFooter = exDoc := by decide +kernel
+  have e1 : (unlines exHs).length = 77 := by decide +kernel
+  have e2 : (unlines exSs ++ exL ++ '\n' :: exT).length = 91 := by decide +kernel
+  rw [e, e1, e2] at h; exact h
+/-- the same pair by evaluating the model (through the twin `idxPairF`, proved equal to `idxPair`) -/
+example : idxPair exDoc = .ok (77, 168) := idxPair_of_F _ _ (by decide +kernel)
+/-- and the parts are the pieces -/
+example : rawParts exDoc 77 168 = (some (unlines exHs), unlines exSs ++ exL ++ '\n' :: exT, some exFooter) := by decide +kernel
+
+/-- ReST in the layout this code base emits (blank line before `:return:`; **absorbed**): the footer slice is empty -/
+def exPost2 : Str := cs!"\n:return: the result\n:rtype: ```bool```\n\nNotes about usage.\n"
+example : absorbedDom exHs exSs exL exPost2 = true := by decide +kernel
+example : idxPair (unlines exHs ++ unlines exSs ++ exL ++ '\n' :: exPost2) = .ok (77, 209)
+    ∧ (unlines exHs ++ unlines exSs ++ exL ++ '\n' :: exPost2).length = 209 := by
+  refine ⟨?_, by decide +kernel⟩
+  have h := field_absorbed_nl exHs exSs exL cs!"\n:return: the result\n:rtype: ```bool```\n\nNotes about usage." (by decide +kernel)
+  have e1 : (unlines exHs).length = 77 := by decide +kernel
+  have e2 : (unlines exHs ++ unlines exSs ++ exL ++ '\n' :: (cs!"\n:return: the result\n:rtype: ```bool```\n\nNotes about usage." ++ ['\n'])).length = 209 := by decide +kernel
+  rw [e1, e2] at h; exact h
+
+/-- Google (**absorbed**, the docstring does not end in a newline): the footer slice is the last line without its indentation -/
+def exSs3 : List Str := [cs!"Args:", cs!"  a (int): first", cs!"  b (str): second", []]
+def exPost3 : Str := cs!"  bool: the result\n\nNotes about usage.\n  last line"
+example : absorbedDom exHs exSs3 cs!"Returns:" exPost3 = true := by decide +kernel
+set_option maxRecDepth 10000 in
+example : idxPair (unlines exHs ++ unlines exSs3 ++ cs!"Returns:" ++ '\n' :: exPost3) = .ok (77, 169)
+    ∧ absorbedFooter (unlines exHs ++ unlines exSs3 ++ cs!"Returns:" ++ '\n' :: exPost3) = cs!"last line" := by
+  refine ⟨?_, by decide +kernel⟩
+  have h := field_absorbed_split exHs exSs3 cs!"Returns:" exPost3 (by decide +kernel)
+  have e1 : (unlines exHs).length = 77 := by decide +kernel
+  have e2 : (unlines exHs ++ unlines exSs3 ++ cs!"Returns:" ++ '\n' :: exPost3).length
+      - (absorbedFooter (unlines exHs ++ unlines exSs3 ++ cs!"Returns:" ++ '\n' :: exPost3)).length = 169 := by decide +kernel
+  rw [e1, e2] at h; exact h
+
+/-- Google with a `Raises:` section after `Args:`: the footer starts at the newline before `Raises:` -/
+def exSs4 : List Str := [cs!"Args:", cs!"  a (int): first", []]
+example : raisesDom exHs exSs4 cs!"Raises:" cs!"  ValueError: bad\n" = true := by decide +kernel
+example : idxPair (unlines exHs ++ unlines exSs4 ++ cs!"Raises:" ++ '\n' :: cs!"  ValueError: bad\n") = .ok (77, 100) := by
+  have h := field_raises_split exHs exSs4 cs!"Raises:" cs!"  ValueError: bad\n" (by decide +kernel)
+  have e1 : (unlines exHs).length = 77 := by decide +kernel
+  have e2 : (unlines exHs ++ unlines exSs4).length - 1 = 100 := by decide +kernel
+  rw [e1, e2] at h; exact h
+
+/-- ReST, **adjacent** footer and **unterminated** last line -/
+example : adjacentDom exHs [cs!":param a: first"] cs!":param b: second" cs!"Notes directly after.\n" = true := by decide +kernel
+example : unterminatedDom exHs [cs!":param a: first"] cs!":param b: second" = true := by decide +kernel
+
+/-! ## which clauses are essential — witnesses evaluated on the model (`idxPairF`, proved equal to `idxPair`), each
+replayed on the real `_get_token_start_idx` / `_get_token_last_idx`, which return the same pair -/
+
+/-- **header lines must not start with a token word**: `Parameters given here …` (a sentence, not a heading) is taken as
+    the start of the section — start = 10, inside the 48-character header -/
+theorem header_token_word_needed :
+    headerLineOk cs!"Parameters given here are forwarded." = false
+    ∧ (unlines [cs!"Summary.", [], cs!"Parameters given here are forwarded.", []]).length = 48
+    ∧ idxPair cs!"Summary.\n\nParameters given here are forwarded.\n\n:param a: first\n:return: r\n\nNotes.\n" = .ok (10, 74) :=
+  ⟨by decide +kernel, by decide +kernel, idxPair_of_F _ _ (by decide +kernel)⟩
+
+/-- the same with `Returns the value …` -/
+theorem header_returns_word_needed :
+    headerLineOk cs!"Returns the value quickly." = false
+    ∧ idxPair cs!"Summary.\n\nReturns the value quickly.\n\n:param a: first\n:return: r\n\nNotes.\n" = .ok (10, 64) :=
+  ⟨by decide +kernel, idxPair_of_F _ _ (by decide +kernel)⟩
+
+/-- the header clause is sufficient, not necessary: a header line that is exactly `Parameters` (followed by prose, not by
+    dashes) is rejected by `headerLineOk`, yet the split is where it should be (51 = |header|) -/
+theorem header_exact_keyword_line_harmless :
+    headerLineOk cs!"Parameters" = false
+    ∧ (unlines [cs!"Summary.", [], cs!"Parameters", cs!"are described in the manual.", []]).length = 51
+    ∧ idxPair cs!"Summary.\n\nParameters\nare described in the manual.\n\n:param a: first\n:return: r\n\nNotes.\n" = .ok (51, 77) :=
+  ⟨by decide +kernel, by decide +kernel, idxPair_of_F _ _ (by decide +kernel)⟩
+
+/-- **the footer must be quiet**: a footer sentence with the word `:param` moves the last token into the footer; the
+    footer slice becomes empty (last = 58 = the length of the docstring instead of 36) -/
+theorem footer_quiet_needed :
+    quiet none [] (cs!":return: r" ++ cs!"\n\nSee :param a above.\n") = false
+    ∧ idxPair cs!"Summary.\n\n:param a: first\n:return: r\n\nSee :param a above.\n" = .ok (10, 58) :=
+  ⟨by decide +kernel, idxPair_of_F _ _ (by decide +kernel)⟩
+
+/-- **the first section line must start with a token**: otherwise `_get_token_start_idx` finds nothing (−1, header `None`) -/
+theorem section_start_needed :
+    fieldStart cs!"see :param a: first" = false
+    ∧ idxPair cs!"Summary.\n\nsee :param a: first\n\nNotes.\n" = .ok (-1, 38) :=
+  ⟨by decide +kernel, idxPair_of_F _ _ (by decide +kernel)⟩
+
+/-- **`L` must not be `Raises:`** (adjacent / absorbed): instance of `raises_only_not_partition` — a realistic Google
+    docstring with only a `Raises:` section has start = 10 > last = 9 -/
+theorem raises_only_witness :
+    raisesDom [cs!"Summary.", []] [] cs!"Raises:" cs!"  ValueError: bad\n" = true
+    ∧ idxPair cs!"Summary.\n\nRaises:\n  ValueError: bad\n" = .ok (10, 9)
+    ∧ ¬ Partitions cs!"Summary.\n\nRaises:\n  ValueError: bad\n" 10 9 :=
+  ⟨by decide +kernel, idxPair_of_F _ _ (by decide +kernel), not_partitions_of_gt _ _ _ (by decide +kernel) (by decide +kernel) (by decide +kernel)⟩
+
+/-- the raw string of `Properties/C15.lean` (`"\n\nRaises:\n"`, start = 2 > last = 1) is the smallest member of that family -/
+theorem raises_min_witness :
+    raisesDom [[], []] [] cs!"Raises:" [] = true ∧ idxPair cs!"\n\nRaises:\n" = .ok (2, 1) :=
+  ⟨by decide +kernel, idxPair_of_F _ _ (by decide +kernel)⟩
+
+/-- in-domain but worth knowing (compact ReST): a `:rtype:` line directly after `:return:` is **in the footer slice** -/
+theorem rtype_lands_in_footer :
+    compactDom [cs!"Summary.", []] [cs!":param a: first"] cs!":type a: int" cs!":return: r" cs!"\n:rtype: int\n\nNotes.\n" = true
+    ∧ idxPair cs!"Summary.\n\n:param a: first\n:type a: int\n:return: r\n:rtype: int\n\nNotes.\n" = .ok (10, 49)
+    ∧ (rawParts cs!"Summary.\n\n:param a: first\n:type a: int\n:return: r\n:rtype: int\n\nNotes.\n" 10 49).2.2
+        = some cs!"\n:rtype: int\n\nNotes.\n" :=
+  ⟨by decide +kernel, idxPair_of_F _ _ (by decide +kernel), by decide +kernel⟩
 
 end C15Struct
